@@ -31,6 +31,7 @@ Theorems (all without `sorry`; axioms checked by bin/check):
   c12_reload_relative, c12_after_reload_writes
   c12_rate, c12_rate_events, c12_periods
   c12_inv_init, c12_inv_after_tick, c12_inv_harness_reset   (which states are legal starts)
+  c12_selected_bit         the mask table selects bits 9/3/5/7
 Helper lemmas are `private` (`step_ok` is the simulation step).
 -/
 namespace Tetro.C12
@@ -64,6 +65,16 @@ private theorem edgeSet_eq (t : Model.Timer.T) :
   have h : t.tac % 4 = 0 ∨ t.tac % 4 = 1 ∨ t.tac % 4 = 2 ∨ t.tac % 4 = 3 := by omega
   rcases h with h | h | h | h <;>
     (rw [Bool.eq_iff_iff]; simp [h, Nat.testBit_eq_decide_div_mod_eq])
+
+/-- the code's mask table `counterBitMasks` (bits 9, 3, 5, 7 indexed by `tac & 3`) selects the bit
+    the documentation names, and the code's mask test is a test of that bit -/
+theorem c12_selected_bit (t : Model.Timer.T) :
+    Model.Timer.maskBit t.tac = Spec.Timer.selectedBit t.tac ∧
+    Model.Timer.counterBitSet t = t.counter.testBit (Model.Timer.maskBit t.tac) := by
+  unfold Model.Timer.maskBit Model.Timer.counterBitSet Spec.Timer.selectedBit
+  have h : t.tac % 4 = 0 ∨ t.tac % 4 = 1 ∨ t.tac % 4 = 2 ∨ t.tac % 4 = 3 := by omega
+  rcases h with h | h | h | h <;>
+    (refine ⟨by simp [h], ?_⟩; rw [Bool.eq_iff_iff]; simp [h, Nat.testBit_eq_decide_div_mod_eq])
 
 /-! ### `EndMachineCycle`, field by field -/
 section tick
